@@ -91,6 +91,15 @@ theories/Resize/ResizeProofs.vos theories/Resize/ResizeProofs.vok theories/Resiz
 theories/Properties_C08.vo theories/Properties_C08.glob theories/Properties_C08.v.beautified theories/Properties_C08.required_vo: theories/Properties_C08.v theories/Layout/Layout.vo theories/Resize/ResizeGeom.vo theories/Resize/ResizeProofs.vo
 theories/Properties_C08.vio: theories/Properties_C08.v theories/Layout/Layout.vio theories/Resize/ResizeGeom.vio theories/Resize/ResizeProofs.vio
 theories/Properties_C08.vos theories/Properties_C08.vok theories/Properties_C08.required_vos: theories/Properties_C08.v theories/Layout/Layout.vos theories/Resize/ResizeGeom.vos theories/Resize/ResizeProofs.vos
+theories/Geometry/InitGeom.vo theories/Geometry/InitGeom.glob theories/Geometry/InitGeom.v.beautified theories/Geometry/InitGeom.required_vo: theories/Geometry/InitGeom.v theories/Layout/Layout.vo theories/Resize/ResizeGeom.vo
+theories/Geometry/InitGeom.vio: theories/Geometry/InitGeom.v theories/Layout/Layout.vio theories/Resize/ResizeGeom.vio
+theories/Geometry/InitGeom.vos theories/Geometry/InitGeom.vok theories/Geometry/InitGeom.required_vos: theories/Geometry/InitGeom.v theories/Layout/Layout.vos theories/Resize/ResizeGeom.vos
+theories/Geometry/InitGeomProofs.vo theories/Geometry/InitGeomProofs.glob theories/Geometry/InitGeomProofs.v.beautified theories/Geometry/InitGeomProofs.required_vo: theories/Geometry/InitGeomProofs.v theories/Layout/Layout.vo theories/Resize/ResizeGeom.vo theories/Resize/ResizeProofs.vo theories/Geometry/InitGeom.vo
+theories/Geometry/InitGeomProofs.vio: theories/Geometry/InitGeomProofs.v theories/Layout/Layout.vio theories/Resize/ResizeGeom.vio theories/Resize/ResizeProofs.vio theories/Geometry/InitGeom.vio
+theories/Geometry/InitGeomProofs.vos theories/Geometry/InitGeomProofs.vok theories/Geometry/InitGeomProofs.required_vos: theories/Geometry/InitGeomProofs.v theories/Layout/Layout.vos theories/Resize/ResizeGeom.vos theories/Resize/ResizeProofs.vos theories/Geometry/InitGeom.vos
+theories/Properties_C07.vo theories/Properties_C07.glob theories/Properties_C07.v.beautified theories/Properties_C07.required_vo: theories/Properties_C07.v theories/Layout/Layout.vo theories/Resize/ResizeGeom.vo theories/Geometry/InitGeom.vo theories/Geometry/InitGeomProofs.vo
+theories/Properties_C07.vio: theories/Properties_C07.v theories/Layout/Layout.vio theories/Resize/ResizeGeom.vio theories/Geometry/InitGeom.vio theories/Geometry/InitGeomProofs.vio
+theories/Properties_C07.vos theories/Properties_C07.vok theories/Properties_C07.required_vos: theories/Properties_C07.v theories/Layout/Layout.vos theories/Resize/ResizeGeom.vos theories/Geometry/InitGeom.vos theories/Geometry/InitGeomProofs.vos
 theories/Properties_C20.vo theories/Properties_C20.glob theories/Properties_C20.v.beautified theories/Properties_C20.required_vo: theories/Properties_C20.v theories/Layout/Layout.vo theories/Layout/LayoutProofs.vo
 theories/Properties_C20.vio: theories/Properties_C20.v theories/Layout/Layout.vio theories/Layout/LayoutProofs.vio
 theories/Properties_C20.vos theories/Properties_C20.vok theories/Properties_C20.required_vos: theories/Properties_C20.v theories/Layout/Layout.vos theories/Layout/LayoutProofs.vos
